@@ -15,8 +15,8 @@ from pat_common import *
 PROP = "C08"
 META = {
  "engine": "P-pattern-algebra",
- "text": "Coq theorems (Props/C08.v, closed under the global context) prove, for an ARBITRARY operator semantics (a Section variable) and arbitrary operand objects of the pattern model: the i-th output of every PBinOp class is the operator applied to the i-th operand values, a rest on either side gives a rest, the output stops at the first index at which either operand stops (left operand first), & yields the conjunction of the truth values, -p is 0 - p_i and abs(p) is |p_i| with rests kept; what the Python operators build (dunder table incl. reflected forms) denotes the operator with the operands in the written order; and the law lifts to operator expression trees of any depth by induction. The model (Pat/Step.v, a clause-by-clause transcription of core.py) is tied to the repository on every run: operator expressions built through the Python operators for all 15 operators and &, -x, abs(x), pattern/scalar on either side, ints/floats/bools/rests, equal and unequal lengths, raising operands, nestings to depth 3 (5 % deeper) are run on both sides and compared inside Coq; an independent oracle applies Python's own operators to the operand streams and supplies the failing input.",
- "note": "Trusted: Coq kernel + VM; the harness; Val.binop as a description of CPython's arithmetic on the exact (dyadic) value domain - the C08 theorems do not depend on it (operator semantics is a Section variable), only the correspondence does; results outside that domain (non-dyadic floats, complex, huge ints) are judged by the oracle only and discarded from the model comparison. After the first exception the operand streams are no longer aligned (the left operand has advanced, the right has not): the law is judged up to and including the first StopIteration/exception.",
+ "text": "Coq theorems (Props/C08.v, closed under the global context) prove, for an ARBITRARY operator semantics (a Section variable) and arbitrary operand objects of the pattern model: the i-th output of every PBinOp class is the operator applied to the i-th operand values, a rest on either side gives a rest, the output stops at the first index at which either operand stops (left operand first), & yields the conjunction of the truth values, -p is 0 - p_i and abs(p) is |p_i| with rests kept; what the Python operators build (dunder table incl. reflected forms) denotes the operator with the operands in the written order; and the law lifts to operator expression trees of any depth by induction. The model (Pat/Step.v, a clause-by-clause transcription of core.py) is tied to the repository on every run: operator expressions built through the Python operators for all 15 operators and &, -x, abs(x), pattern/scalar on either side, ints/floats/bools/rests, equal and unequal lengths, raising operands, nestings to depth 3 (5 % deeper) are run on both sides and compared inside Coq; an independent oracle applies Python's own operators to the operand streams in the written nesting order, compares floats bit for bit (incl. the sign of a zero) and supplies the failing input. Rounding-sensitive strata (two-operator chains and nested trees with scalars at every level over float themes: non-dyadic decimals, cancellation with 1e16, values near 2**53, subnormals, signed zeros) make re-association, distribution, constant folding and single rounding visible; these cases are also compared with the model under the operator semantics Pat/Ieee.v (exact result rounded to binary64, ties to even), for which Props/C08.v proves the nesting law instance, non-associativity / non-distributivity witnesses, the reflected-form side condition and conservativity over Pat/Val.v.",
+ "note": "Trusted: Coq kernel + VM; the harness; Val.binop as a description of CPython's arithmetic on the exact (dyadic) value domain - the C08 theorems do not depend on it (operator semantics is a Section variable), only the correspondence does; and Ieee.binop_ieee (round-to-nearest-even + - * / on all finite floats) as a description of CPython's float arithmetic, validated by the correspondence only; results outside both domains (// % ** on non-dyadic floats, inf/nan, complex, huge ints) are judged by the oracle only and discarded from the model comparison; the sign of a zero is judged by the oracle only, and not under a unary minus (property text undecided). After the first exception the operand streams are no longer aligned (the left operand has advanced, the right has not): the law is judged up to and including the first StopIteration/exception.",
 }
 
 PYOP = {"+": operator.add, "-": operator.sub, "*": operator.mul, "/": operator.truediv, "//": operator.floordiv,
@@ -163,6 +163,16 @@ def has_neg(x):
     return any(isinstance(n, Unary) and n.op == "neg" for _, n in nodes(x))
 
 
+def resumes_after_stop(stream):
+    seen_stop = False
+    for o in stream:
+        if o == "stop":
+            seen_stop = True
+        elif seen_stop and isinstance(o, dict) and "y" in o:
+            return True
+    return False
+
+
 def judge(case, streams):
     """None if the implementation's observations are what the property demands, else a dict describing
     the first deviation.  Judged: the constructor, then every next() up to and including the first
@@ -183,8 +193,15 @@ def judge(case, streams):
     # text says "the Python operator" (-0.0 for 0.0) and names the mechanism 0 - self (0.0 for 0.0): undecided.
     # The sign of a zero operand can only show in the sign of a zero result, so nothing else is affected.
     signed = not has_neg(case.expr)
+    # an operand that itself gives a value again after its own StopIteration (PSeries with a pattern-valued length
+    # does) has no defined end: "ends as soon as either operand ends" is then judged up to the first StopIteration
+    # only (found by seed 6: -PSeries(False, -1, PSequence([0, 9.0], 1)) gives StopIteration, 0, StopIteration ...)
+    resumes = any(resumes_after_stop(streams[to_source(n)]) for _, n in nodes(case.expr)
+                  if isinstance(n, E) and to_source(n) in streams)
     for i, o in enumerate(obs[1:]):
         if ended == "stop":
+            if resumes:
+                break
             if canon_obs(o).startswith("value"):
                 return {"index": i, "expected": "StopIteration (an operand has ended)", "observed": canon_obs(o)}
             continue
